@@ -38,8 +38,9 @@ theorem every_site_in_table (s : Site) (t : String × String × String) (h : s.s
   | _ => (simp only [Site.source] at h; cases h; decide)
 
 /-- `check_for_celevalerror` looks at map keys, map values and the items of lists and tuples,
-    and each of the three evaluators scans what celpy returned inside a `try` that catches
-    `CELEvalError` and everything else, answering PermFail -/
+    and each of the three evaluators scans what celpy returned inside a `try` with a catch-all,
+    every handler answers PermFail, and no handler calls celpy's `tree_dump` unguarded (F10: it
+    raises for some trees, and an exception raised inside one `except` arm escapes) -/
 theorem scan_shape_matches_source :
     Koreo.Gen.EvalSites.scanChecksKeys = true ∧ Koreo.Gen.EvalSites.scanChecksValues = true ∧
     Koreo.Gen.EvalSites.scanChecksItems = true ∧
